@@ -50,6 +50,7 @@ level4(getB_from_sensor, getH_from_sensor): <--- USER INTERFACE
 level5(sens.getB, sens.getH): <--- USER INTERFACE
 """
 import numbers
+import os
 import warnings
 from itertools import product
 from typing import Callable
@@ -69,6 +70,14 @@ from magpylib._src.utility import format_obj_input
 from magpylib._src.utility import format_src_inputs
 from magpylib._src.utility import get_registered_sources
 from magpylib._src.utility import has_parameter
+
+
+if os.environ.get("MAGPYLIB_VERIF"):  # verification hooks, see _verif_hooks.py
+    from magpylib._src._verif_hooks import point as _verif_point
+else:
+
+    def _verif_point(name, **info):  # pylint: disable=unused-argument
+        """inactive verification hook"""
 
 
 def tile_group_property(group: list, n_pp: int, prop_name: str):
@@ -271,6 +280,7 @@ def getBH_level2(
     num_of_src_list = len(src_list)
     num_of_sensors = len(sensors)
 
+    _verif_point("checked", objects=obj_list)
     # tile up paths -------------------------------------------------------------
     #   all obj paths that are shorter than max-length are filled up with the last
     #   position/orientation of the object (static paths)
@@ -295,6 +305,7 @@ def getBH_level2(
             tile_orient = np.concatenate((obj._orientation.as_quat(), tile_orient))
             obj._orientation = R.from_quat(tile_orient)
 
+    _verif_point("tiled", objects=obj_list)
     # combine information form all sensors to generate pos_obs with-------------
     #   shape (m * concat all sens flat pixel, 3)
     #   allows sensors with different pixel shapes <- relevant?
@@ -336,6 +347,7 @@ def getBH_level2(
     for field_func, group in field_func_groups.items():
         lg = len(group["sources"])
         gr = group["sources"]
+        _verif_point("group", objects=obj_list, sources=gr)
         src_dict = get_src_dict(gr, n_pix, n_pp, poso)  # compute array dict for level1
         # compute field
         B_group = getBH_level1(
@@ -352,6 +364,7 @@ def getBH_level2(
         for gr_ind in range(lg):  # put into dedicated positions in B
             B[group["order"][gr_ind]] = B_group[gr_ind]
 
+    _verif_point("computed", objects=obj_list)
     # reshape output ----------------------------------------------------------------
     # rearrange B when there is at least one Collection with more than one source
     if num_of_src_list > num_of_sources:
@@ -364,6 +377,7 @@ def getBH_level2(
                     B, np.s_[src_ind + 1 : src_ind + col_len], 0
                 )  # delete remaining part of slice
 
+    _verif_point("reduced", objects=obj_list)
     # apply sensor rotations (after summation over collections to reduce rot.apply operations)
     for sens_ind, sens in enumerate(sensors):  # cycle through all sensors
         pix_slice = slice(pix_inds[sens_ind], pix_inds[sens_ind + 1])
@@ -391,6 +405,7 @@ def getBH_level2(
         if sens.handedness == "left":
             B[..., pix_slice, 0] *= -1
 
+    _verif_point("rotated", objects=obj_list)
     # rearrange sensor-pixel shape
     if pix_all_same:
         B = B.reshape((num_of_sources, max_path_len, num_of_sensors, *pix_shapes[0]))
@@ -402,11 +417,13 @@ def getBH_level2(
         Bagg = [np.expand_dims(pixel_agg_func(b, axis=2), axis=2) for b in Bsplit]
         B = np.concatenate(Bagg, axis=2)
 
+    _verif_point("aggregated", objects=obj_list)
     # reset tiled objects
     for obj, m0 in zip(reset_obj, reset_obj_m0):
         obj._position = obj._position[:m0]
         obj._orientation = obj._orientation[:m0]
 
+    _verif_point("untiled", objects=obj_list)
     # sumup over sources
     if sumup:
         B = np.sum(B, axis=0, keepdims=True)
